@@ -24,7 +24,7 @@ the exception hierarchy supplied by the caller) or outwards.
 """
 import ast
 
-from .model import AnalysisError
+from .model import AnalysisError, exc_is_subclass
 
 CATCH_ALL = {'BaseException', 'Exception'}
 
@@ -572,13 +572,7 @@ class Builder:
 
     # -- exception class matching -----------------------------------------
     def _is_subclass(self, name, base):
-        seen = set()
-        while name is not None and name not in seen:
-            if name == base:
-                return True
-            seen.add(name)
-            name = self.exc_parents.get(name)
-        return False
+        return exc_is_subclass(name, base, self.exc_parents)
 
     def _catches(self, names, raised):
         """True / False / None(unknown) whether handler with `names` catches class `raised`."""
